@@ -114,7 +114,7 @@ def run(rep, tier, seed):
            "INVARIANT Independent\nINVARIANT TablesCleanWhenIdle\nCONSTRAINT Emit\n" % K)
     r = common.run_tlc("MC_C12", cfg, timeout=3000)
     common.require_ok(r, "MC_C12")
-    rep.add_tlc(r, "MC_C12 all histories of %d loads over 18 scripts, included files edited between loads (tables persist between loads)" % K)
+    rep.add_tlc(r, "MC_C12 all histories of %d loads over 19 scripts, included files edited between loads (tables persist between loads)" % K)
     if r.violated:
         raise common.MachineryError("MC_C12: the intended specification violates %s" % r.violated)
     # teeth: the as-implemented-before-the-fix switch must produce a counterexample (non-vacuity of Independent)
@@ -166,7 +166,7 @@ def run(rep, tier, seed):
     rep.cov["evaluations"] += len(jobs)
     rep.cov["distinct_nontrivial"] += len(jobs)
     rep.cov["loads_executed"] = len(jobs) * K
-    rep.cov["rule"] = ("every sequence of %d loads over 18 scripts, the included files (also a nested one) edited or not between two loads (valid, template, tdm with p-array, failing at the syntax stage, at an undefined name, "
+    rep.cov["rule"] = ("every sequence of %d loads over 19 scripts, the included files (also a nested one) edited or not between two loads (valid, template, tdm with p-array, failing at the syntax stage, at an undefined name, "
                        "at a type error, inside a loop, inside an include, in the metadata, after a parameter was seen; scripts whose target/type options "
                        "mention x, i, p0, {p}); each history runs in its own fresh process; every outcome compared with the pristine outcome" % K)
     rep.assumptions += ["each history starts in a freshly forked interpreter that has not loaded anything"]
